@@ -292,7 +292,9 @@ def closed_forms(repo, rep):
         branch = None
         for i_ in ast.walk(fi.node):
             if isinstance(i_, ast.If) and isinstance(i_.test, ast.Compare) and unparse(i_.test.left) == dpar and repo.const(fi.module, i_.test.comparators[0]) is None:
-                branch = (i_.body, i_.orelse) if isinstance(i_.test.ops[0], ast.IsNot) else (i_.orelse, i_.body)
+                from ..astutil import if_branches
+                b_, o_ = if_branches(i_)
+                branch = (b_, o_) if isinstance(i_.test.ops[0], ast.IsNot) else (o_, b_)
         if branch is None:
             raise AnalysisError(f"{fi.short}: `if {dpar} is not None` branch not found")
         finite, deep = branch
@@ -323,8 +325,13 @@ def closed_forms(repo, rep):
     fi = repo.func("wavespectra.core.utils.wavenuma")
     D = None
     for n in ast.walk(fi.node):
-        if isinstance(n, ast.Assign) and isinstance(n.value, ast.List) and isinstance(n.targets[0], ast.Name):
+        if isinstance(n, ast.Assign) and isinstance(n.value, (ast.List, ast.Tuple)) and isinstance(n.targets[0], ast.Name):
             D = (n.targets[0].id, len(n.value.elts), n)
+    if D is None:
+        # table hoisted into a module constant: E0 inlined it at its use,  (c0, c1, ..)[i]
+        for n in ast.walk(fi.node):
+            if isinstance(n, ast.Subscript) and isinstance(n.value, (ast.Tuple, ast.List)) and len(n.value.elts) >= 4:
+                D = ("<table>", len(n.value.elts), n)
     loop = [n for n in ast.walk(fi.node) if isinstance(n, ast.For)]
     if D is None or len(loop) != 1:
         raise AnalysisError("wavenuma: coefficient table / loop not found")
